@@ -231,6 +231,12 @@ def pyconst(v):
     return v
 
 
+def _known_real(v):
+    """the value is a real array whatever its operand was: a real or imaginary part, a modulus or a phase"""
+    a = v.single_atom() if isinstance(v, Rat) else None
+    return isinstance(a, Fn) and a.name in ("real", "imag", "abs", "angle")
+
+
 class Interp(object):
     def __init__(self, index, opaque=(), inline_depth=6, int_transparent=False,
                  square=False, round_transparent=False):
@@ -384,11 +390,22 @@ class Interp(object):
             return None
         return v.subst(f)
 
-    def paths(self, finfo, args=None, kwargs=None, self_obj=None):
-        """list of (conds text, cond_nf, return value) per returning path."""
+    def paths(self, finfo, args=None, kwargs=None, self_obj=None, split=False):
+        """list of (conds text, cond_nf, return value) per returning path.  With `split`, a returned value that is the
+        unresolved alternatives of one inlined callee (`return helper(...)`) is reported as one path per alternative, the
+        callee's own decisions appended to the caller's."""
         out = []
         for s in self.run(finfo, args, kwargs, self_obj):
-            out.append((s.conds, s.cond_nf, None if s.ret is NORET else self.resolve_paths(s.ret, s.cond_nf)))
+            v = None if s.ret is NORET else self.resolve_paths(s.ret, s.cond_nf)
+            a = v.single_atom() if isinstance(v, Rat) else None
+            if split and isinstance(a, Fn) and a.name == "paths" and a.key() in self.paths_conds:
+                for alt, conds_list in zip(a.args, self.paths_conds[a.key()]):
+                    for cs in conds_list:
+                        cnf = tuple(s.cond_nf) + tuple(cs)
+                        out.append((tuple(s.conds) + tuple("callee: %s%s" % ("" if tr else "not ", str(_vk(t))[:80]) for t, tr in cs), cnf,
+                                    self.resolve_paths(alt, cnf)))
+                continue
+            out.append((s.conds, s.cond_nf, v))
         return out
 
     def returns(self, finfo, args=None, kwargs=None, self_obj=None):
@@ -1196,6 +1213,14 @@ class Interp(object):
                 else:
                     return None
                 return res if isinstance(op, ast.Is) else not res
+            if isinstance(op, (ast.Eq, ast.NotEq)):
+                # the dtype of a real/imaginary part, modulus or phase is never a complex type
+                for x, y in ((l, r), (r, l)):
+                    if isinstance(y, ExtRef) and y.dotted.split(".")[-1] in ("complex64", "complex128", "complex256", "complex_", "complex",
+                                                                              "cdouble", "csingle", "clongdouble", "complexfloating") \
+                            and isinstance(x, Rat) and isinstance(x.single_atom(), Fn) and x.single_atom().name == "dtype" \
+                            and len(x.single_atom().args) == 1 and _known_real(x.single_atom().args[0]):
+                        return isinstance(op, ast.NotEq)
             lc, rc = pyconst(l), pyconst(r)
             if lc is None or rc is None:
                 if isinstance(op, (ast.In, ast.NotIn)):
@@ -1235,6 +1260,9 @@ class Interp(object):
             return v
         if isinstance(v, (ExtRef, FuncRef, ModRef)):
             return True
+        if isinstance(v, Rat) and isinstance(v.single_atom(), Fn) and v.single_atom().name in ("iscomplexobj", "isrealobj") \
+                and len(v.single_atom().args) == 1 and _known_real(v.single_atom().args[0]):
+            return v.single_atom().name == "isrealobj"
         c = pyconst(v)
         if isinstance(c, (int, float)) and not isinstance(v, Rat):
             return bool(c)
